@@ -105,6 +105,7 @@ def opIndex : C01.Op → Nat
   | .del c _ => c.index
   | .clear c => c.index
   | .build c _ _ _ => c.index
+  | .prepare c _ => c.index
 
 /-- one step of a history (a failed operation is a no-op) keeps the dump of every other index -/
 theorem C07_dump_step (s : Store) (op : C01.Op) (hop : op.wf) : OtherSame (opIndex op) s (C01.step s op) := by
@@ -128,9 +129,14 @@ theorem C07_dump_step (s : Store) (op : C01.Op) (hop : op.wf) : OtherSame (opInd
     | ok r =>
       obtain ⟨u, st'⟩ := r
       exact C07_dump_build c hop.1 o fuel { env with store := s } st' h
+  | prepare c m' =>
+    simp only [C01.step, opIndex]
+    cases h : Writer.prepareChangingDistance c m' s with
+    | ok s' => exact C07_dump_prepare c hop m' s s' h
+    | error e => exact (OtherSame.storeRel _).refl s
 
-/-- **C07 (query answers, over histories)**: any sequence of operations and builds (successful, failed or
-    cancelled) on indexes other than `c'.index` leaves `Reader::open` and every query of `c'` unchanged,
+/-- **C07 (query answers, over histories)**: any sequence of operations, metric changes and builds (successful,
+    failed or cancelled) on indexes other than `c'.index` leaves `Reader::open` and every query of `c'` unchanged,
     when the forest of `c'` is valid in the starting state. -/
 theorem C07_answers_nns_history (c' : Cfg) (hi' : c'.index < 65536) (ops : List C01.Op)
     (hops : ∀ op ∈ ops, op.wf) (hother : ∀ op ∈ ops, c'.index ≠ opIndex op)
